@@ -54,15 +54,15 @@ func (l *recLogger) add(s string) {
 		<-wait
 	}
 }
-func (l *recLogger) SetLevel(string)                     {}
-func (l *recLogger) Info(m string)                       { l.add("I " + m) }
-func (l *recLogger) Error(m string)                      { l.add("E " + m) }
-func (l *recLogger) Warn(m string)                       { l.add("W " + m) }
-func (l *recLogger) Debug(m string)                      { l.add("D " + m) }
-func (l *recLogger) Infof(m string, a ...interface{})    { l.add("I " + fmt.Sprintf(m, a...)) }
-func (l *recLogger) Errorf(m string, a ...interface{})   { l.add("E " + fmt.Sprintf(m, a...)) }
-func (l *recLogger) Warnf(m string, a ...interface{})    { l.add("W " + fmt.Sprintf(m, a...)) }
-func (l *recLogger) Debugf(m string, a ...interface{})   { l.add("D " + fmt.Sprintf(m, a...)) }
+func (l *recLogger) SetLevel(string)                   {}
+func (l *recLogger) Info(m string)                     { l.add("I " + m) }
+func (l *recLogger) Error(m string)                    { l.add("E " + m) }
+func (l *recLogger) Warn(m string)                     { l.add("W " + m) }
+func (l *recLogger) Debug(m string)                    { l.add("D " + m) }
+func (l *recLogger) Infof(m string, a ...interface{})  { l.add("I " + fmt.Sprintf(m, a...)) }
+func (l *recLogger) Errorf(m string, a ...interface{}) { l.add("E " + fmt.Sprintf(m, a...)) }
+func (l *recLogger) Warnf(m string, a ...interface{})  { l.add("W " + fmt.Sprintf(m, a...)) }
+func (l *recLogger) Debugf(m string, a ...interface{}) { l.add("D " + fmt.Sprintf(m, a...)) }
 func (l *recLogger) count(sub string) int {
 	l.mu.Lock()
 	defer l.mu.Unlock()
